@@ -699,4 +699,50 @@ theorem lexNumber_digits {text : List Char} {ds : List Nat} {e : Int} {rest : Li
           simp only [Bool.and_eq_true, decide_eq_true_eq] at hd; omega
     · simp [hd] at h
 
+/-! ### `eff_exp` -/
+
+theorem finish_expOverflow_iff (acc : Acc) :
+    finish acc = .error .expOverflow ↔
+      (acc.explicitExp = none ∨ ∃ E : Nat, acc.explicitExp = some E ∧
+        (E > 2 ^ 63 - 1 ∨
+         (if acc.expNeg then acc.implicitExp - (E : Int) else acc.implicitExp + (E : Int)) < -(2 ^ 63) ∨
+         (if acc.expNeg then acc.implicitExp - (E : Int) else acc.implicitExp + (E : Int)) > 2 ^ 63 - 1)) := by
+  unfold finish I64_MAX
+  cases hE : acc.explicitExp with
+  | none => simp
+  | some E =>
+    simp only [Option.some.injEq, exists_eq_left', false_or, reduceCtorEq]
+    by_cases h1 : E > 2 ^ 63 - 1
+    · simp [h1]
+    · simp only [h1, if_false, false_or]
+      cases hn : acc.expNeg
+      · simp only [Bool.false_eq_true, if_false]
+        by_cases hP : acc.implicitExp + (E : Int) < -(2 ^ 63) ∨ acc.implicitExp + (E : Int) > 2 ^ 63 - 1
+        · rw [if_pos hP]; exact ⟨fun _ => hP, fun _ => rfl⟩
+        · rw [if_neg hP]; exact ⟨fun h => (by cases h), fun h => absurd h hP⟩
+      · simp only [if_true]
+        by_cases hP : acc.implicitExp - (E : Int) < -(2 ^ 63) ∨ acc.implicitExp - (E : Int) > 2 ^ 63 - 1
+        · rw [if_pos hP]; exact ⟨fun _ => hP, fun _ => rfl⟩
+        · rw [if_neg hP]; exact ⟨fun h => (by cases h), fun h => absurd h hP⟩
+
+
+theorem finish_errors (acc : Acc) (e : LexErr) (h : finish acc = .error e) : e = .expOverflow := by
+  unfold finish at h
+  split at h
+  · cases h; rfl
+  · next E hE =>
+    by_cases hgt : E > I64_MAX
+    · simp only [hgt, if_true] at h; cases h; rfl
+    · simp only [hgt, if_false] at h
+      cases hn : acc.expNeg
+      · simp only [hn, Bool.false_eq_true, if_false] at h
+        split at h
+        · cases h; rfl
+        · cases h
+      · simp only [hn, if_true] at h
+        split at h
+        · cases h; rfl
+        · cases h
+
+
 end Rsj.Dec
